@@ -34,11 +34,17 @@ STD_GUARD = "reference operators are cross-checked against real std on every rep
                     "the haystack; every case is replayed through every pattern kind that can express the needle")
 def c04(run):
     q = run.tier == "quick"
-    out = vec("C04-Matcher.ndjson")
+    import glob
+    out = vec("C04-Matcher")
+    for f in glob.glob(out + "-*.ndjson"):
+        os.remove(f)
     run.mc("MC_Matcher", "Matcher.quick.cfg" if q else "Matcher.thorough.cfg", env={"OUT": out},
-           need_actions=("Start", "Cmp", "Advance", "Finish"), heap="8g", timeout=3000)
-    run.sample_file(out)
-    run.replay([out], "Matcher vectors")
+           need_actions=("Start", "Cmp", "Advance", "Finish"), heap="12g", timeout=5000)
+    outs = sorted(glob.glob(out + "-*.ndjson"))
+    if len(outs) != 10:
+        raise core.ToolError("Matcher emission incomplete: %s" % outs)
+    run.sample_file(outs[0])
+    run.replay(outs, "Matcher vectors")
     run.record_and_validate("Matcher", "Trace_Matcher", "Trace_Matcher.cfg",
                             n_files=4 if q else 16, n_events=5000 if q else 20000)
     run.assumptions += [BOUNDED, STD_GUARD,
@@ -701,7 +707,7 @@ def replay_verdict(run, doc):
 
 # ------------------------------------------------------------------------------------------- C01
 _C01_MODELS = [  # (MC module, cfg, emits?)
-    ("MC_SliceIndex", "SliceIndex.quick.cfg"), ("MC_StrIndex", "StrIndex.quick.cfg"), ("MC_Matcher", "Matcher.c01.cfg"),
+    ("MC_SliceIndex", "SliceIndex.quick.cfg"), ("MC_StrIndex", "StrIndex.quick.cfg"),
     ("MC_StripTrim", "StripTrim.c01.cfg"), ("MC_CStr", "CStr.quick.cfg"), ("MC_Chars", "Chars.c01.cfg"),
     ("MC_SliceIter", "SliceIter.c01.cfg"), ("MC_Split", "Split.c01.cfg"), ("MC_Parser", "Parser.c01.cfg"),
     ("MC_Ownership", "Ownership.n2.cfg"), ("MC_Cmp", "Cmp.c01.cfg"), ("MC_ParseInt", "ParseInt.c01.cfg"),
@@ -727,6 +733,16 @@ def c01(run):
             os.remove(out)
         run.mc(mod, cfg, env={"OUT": out}, heap="6g", timeout=3000)
         files[mod[3:]] = out
+    # Matcher writes one file per operation
+    import glob
+    mo = vec("C01-Matcher")
+    for f in glob.glob(mo + "-*.ndjson"):
+        os.remove(f)
+    run.mc("MC_Matcher", "Matcher.c01.cfg", env={"OUT": mo}, heap="6g", timeout=3000)
+    with open(vec("C01-Matcher.ndjson"), "w") as fh:
+        for f in sorted(glob.glob(mo + "-*.ndjson")):
+            fh.write(open(f).read())
+    files["Matcher"] = vec("C01-Matcher.ndjson")
     # ArrayBuild: assume_init precondition (no emission needed here)
     run.mc("MC_ArrayBuild", "ArrayBuild.cfg", env={"OUT": "/dev/null"}, heap="2g", timeout=600)
     run.mc("MC_Concat", "Concat.quick.cfg", env={"OUT": vec("C01-Concat.ndjson")}, heap="2g", timeout=600)
